@@ -18,7 +18,7 @@ RULE = ("generated *_test.ucg files (0-8 items: true/false asserts in literal, c
 
 PROBES = ["failing_file_before_passing_file", "asserting_lib_imported_by_two_tests", "type_fail_path_seen", "dir_order_differs_from_argv_sorted",
           "build_error_after_assertions", "file_listed_twice", "nested_dir_failure_only", "failing_lib_assert_shared", "assert_in_module_body",
-          "unlistable_directory_in_walk"]
+          "unlistable_directory_in_walk", "symlinked_test_file", "directory_with_only_subdirectories"]
 FAULT_KINDS = ["nonutf8_test_file", "dangling_test_file", "missing_library", "unlistable_directory"]
 TIERS = {
     "quick": {"runs": 420, "wall_cap": 200},
@@ -45,7 +45,8 @@ def generate(rng, tier, idx):
     profile = rng.weighted([("mixed", 5), ("mostly_pass", 3), ("one_bad", 3)])
     bad_one = rng.below(ntests)
     for i in range(ntests):
-        t = {"name": "t%d_test.ucg" % i, "dir": rng.weighted([("", 6), ("nested", 3)]), "items": [], "imports": [], "fault": None}
+        # "nested/only_dirs/inner": the directory in between holds nothing but a sub-directory
+        t = {"name": "t%d_test.ucg" % i, "dir": rng.weighted([("", 6), ("nested", 3), ("nested/only_dirs/inner", 1)]), "items": [], "imports": [], "fault": None}
         for li in range(nlibs):
             if rng.chance(60):
                 t["imports"].append(li)
@@ -80,6 +81,8 @@ def generate(rng, tier, idx):
                 t["items"].append({"k": "error", "uid": uid, "form": rng.choice(ERRORS)})
         if rng.chance(6):
             t["fault"] = rng.choice(["nonutf8_test_file", "dangling_test_file"])
+        elif rng.chance(8):
+            t["symlinked"] = True      # a healthy test file that is a symbolic link to a file kept elsewhere
         tests.append(t)
     world = {"libs": libs, "tests": tests, "strict": not rng.chance(10), "missing_lib": None,
              "creation": rng.shuffle(list(range(ntests)))}
@@ -363,6 +366,11 @@ def execute(world, sb, res):
                 sb.write(proj + "/" + test_path(t), b"assert {ok = true, desc = \"\xff\xfe\"};\n")
             elif t["fault"] == "dangling_test_file":
                 sb.symlink(proj + "/" + test_path(t), "/nonexistent/ucgsim_test.ucg")
+            elif t.get("symlinked"):
+                # the link's own directory decides where relative imports point, so the text is what it would be in place
+                sb.write(base + "/store/real_%d.txt" % i, render_test(world, i))
+                sb.symlink(proj + "/" + test_path(t), sb.p(base + "/store/real_%d.txt" % i))
+                res.probe("symlinked_test_file")
             else:
                 sb.write(proj + "/" + test_path(t), render_test(world, i))
         mode = sc["mode"]
@@ -426,6 +434,8 @@ def execute(world, sb, res):
         ctx = "argv: %s (cwd <W>/proj)\n--- exit=%s signal=%s\n%s" % (" ".join(shown), inv.status, inv.signal, out[-2500:])
         if "TYPE FAIL" in out:
             res.probe("type_fail_path_seen")
+        if mode in ("dir_r", "noargs_r", "dir_r_abs") and any(t["dir"].startswith("nested/only_dirs") for t in tests):
+            res.probe("directory_with_only_subdirectories")
         for j, lib in enumerate(world["libs"]):
             if lib["asserts"] and len(lib_importers.get(j, ())) >= 2 and len([i for i in set(order) if i in lib_importers[j]]) >= 2:
                 res.probe("asserting_lib_imported_by_two_tests")
@@ -568,6 +578,8 @@ def shrink_candidates(world):
             yield dict(w, tests=tests[:i] + [dict(t, dir="")] + tests[i + 1:])
         if t["fault"]:
             yield dict(w, tests=tests[:i] + [dict(t, fault=None)] + tests[i + 1:])
+        if t.get("symlinked"):
+            yield dict(w, tests=tests[:i] + [dict(t, symlinked=False)] + tests[i + 1:])
         for k, it in enumerate(t["items"]):
             if it["k"] == "assert" and it["form"] != "literal":
                 yield dict(w, tests=tests[:i] + [dict(t, items=t["items"][:k] + [dict(it, form="literal")] + t["items"][k + 1:])] + tests[i + 1:])
